@@ -1,7 +1,17 @@
 import YaegiVerif.Model.Unwind
-/- What interp/run.go and interp/program.go say today, as read by hand (since the repair of F06-1 the three
-   defer sites store `copyDeferArg(…)` of each argument: argsByRef* = false). The extractor re-emits the same
-   record into Generated/C06.lean on every run; `Props.C06.unwindfacts_tie` compares them. -/
+/- What interp/run.go and interp/program.go say today, as read by hand. The extractor re-emits the same
+   record into Generated/C06.lean on every run; `Props.C06.unwindfacts_tie` compares them.
+
+   History of the record (each line is one repair in the repository, seen as exactly this difference):
+     F06-1 (36fd289)  argsByRef{Call,Bin,Builtin} true → false   the three defer sites store copyDeferArg(…)
+     F07   (215471a)  deferredProtected false → true             the loop body is runDeferred(f, val), which recovers a
+                                                                 panic of the call into f.recovered; new function runDeferred
+     F06-3 (4982d61)  panicBoxed true → false                    _panic: panic(x.Interface()) instead of panic(value(f))
+     F06-4 (4d07249)  panicDeferrable false → true               _panic goes through genBuiltinDeferWrapper
+     F06-2 (2e388d6)  exitSteps [lock, assignRecovered, runDeferred, ifRecovered, unlock]
+                        → [lock, assignRecovered, unlock, runDeferred, lock, ifRecovered, unlock]
+   Fingerprints changed by these four: `_panic` (F06-3, F06-4), `runCfg: deferred function` (F07, F06-2);
+   `runDeferred` and `getFunc` are new entries of the table. -/
 namespace YaegiVerif.Expected.C06
 open YaegiVerif.Unwind
 
@@ -12,25 +22,40 @@ def facts : UnwindFacts :=
     argsByRefCall := false,
     argsByRefBin := false,
     argsByRefBuiltin := false,
-    exitSteps := [.lock, .assignRecovered, .runDeferred, .ifRecovered, .unlock],
+    exitSteps := [.lock, .assignRecovered, .unlock, .runDeferred, .lock, .ifRecovered, .unlock],
     ifSteps := [.log, .unlock, .repanic],
+    deferredProtected := true,
     recoverReadsAnc := true,
     recoverClears := true,
-    panicPassesValue := true,
+    panicBoxed := false,
+    panicDeferrable := true,
+    closureAncIsClone := true,
+    closureLocksDefiner := true,
     executeRecovers := true,
     executeCarriesValue := true }
+
+/-- the record before the four repairs of round 2 (F07, F06-2, F06-3, F06-4): used by the regression examples
+    to show that each fact is load-bearing -/
+def factsRound1 : UnwindFacts :=
+  { facts with
+    exitSteps := [.lock, .assignRecovered, .runDeferred, .ifRecovered, .unlock],
+    deferredProtected := false,
+    panicBoxed := true,
+    panicDeferrable := false }
 
 /-- fingerprints (extract/cmd/c06) of the functions and blocks Model/Unwind.lean was transcribed from -/
 def sourceHashes : List (String × String) :=
   [("_recover", "8cc0949f8735f125"),
-   ("_panic", "5ddeb711c6245a56"),
+   ("_panic", "479ec3cbe4f915a7"),
    ("genBuiltinDeferWrapper", "a752ad4945ff5fce"),
    ("genFunctionWrapper", "2865f1c325015a31"),
    ("copyDeferArg", "d8586ba1ea695e54"),
+   ("runDeferred", "efa2b3723efe5dd8"),
+   ("getFunc", "e1777a5459c1a52e"),
    ("Interpreter.Execute", "eaf1129b747c09aa"),
    ("newFrame", "da1db819d5067f56"),
    ("frame.clone", "ccd71f62c6588b0a"),
-   ("runCfg: deferred function", "f0c391f659f9029e"),
+   ("runCfg: deferred function", "61a77e83b081a972"),
    ("call: defer branch", "6c7fc287e47bcb7e"),
    ("callBin: defer clause", "7dd895ce205f05db")]
 
